@@ -215,9 +215,80 @@ pub fn t_c13(depth: usize) -> (u64, u64) {
     (h, n)
 }
 
+/// C01 / C02 / C03 / C06: the message layer. Every status byte x a data grid through both in-crate
+/// types: bytes, conversions in both directions, every accessor; and every factory function on
+/// boundary arguments. (Byte order or pointer width must not matter to any of it.)
+pub fn t_msgs() -> (u64, u64) {
+    fn acc<M: ShortMessage>(m: &M, h: &mut u64, n: &mut u64) {
+        let o = |x: Option<u64>| x.map_or(0, |v| v + 1);
+        *h = mix(*h, code_bytes(m));
+        *h = mix(*h, u8::from(m.r#type()) as u64);
+        *h = mix(*h, o(m.channel().map(|c| c.get() as u64)));
+        *h = mix(*h, o(m.key_number().map(|c| c.get() as u64)));
+        *h = mix(*h, o(m.velocity().map(|c| c.get() as u64)));
+        *h = mix(*h, o(m.controller_number().map(|c| c.get() as u64)));
+        *h = mix(*h, o(m.control_value().map(|c| c.get() as u64)));
+        *h = mix(*h, o(m.program_number().map(|c| c.get() as u64)));
+        *h = mix(*h, o(m.pressure_amount().map(|c| c.get() as u64)));
+        *h = mix(*h, o(m.pitch_bend_value().map(|c| c.get() as u64)));
+        *h = mix(*h, (m.is_note_on() as u64) << 2 | (m.is_note_off() as u64) << 1 | m.is_note() as u64);
+        *h = mix(*h, m.status_byte() as u64 ^ (m.data_byte_1().get() as u64) << 8 ^ (m.data_byte_2().get() as u64) << 16);
+        *n += 12;
+    }
+    let (mut h, mut n) = (0xcbf29ce484222325u64, 0u64);
+    let grid: [(u8, u8); 4] = [(0, 1), (1, 0), (64, 65), (127, 127)];
+    for s in 0x80..=0xFFu8 {
+        for &(d1, d2) in &grid {
+            let raw = RawShortMessage::from_bytes((s, u7(d1), u7(d2))).unwrap();
+            let st = StructuredShortMessage::from_bytes((s, u7(d1), u7(d2))).unwrap();
+            acc(&raw, &mut h, &mut n);
+            acc(&st, &mut h, &mut n);
+            let a: StructuredShortMessage = raw.to_other();
+            let b: RawShortMessage = st.to_other();
+            let c = RawShortMessage::from_other(&st);
+            let d = raw.to_structured();
+            let e = st.to_structured();
+            for x in [code_bytes(&a), code_bytes(&b), code_bytes(&c), code_bytes(&d), code_bytes(&e)] {
+                h = mix(h, x);
+            }
+            n += 5;
+        }
+    }
+    // factories on boundary arguments
+    for c in [0u8, 9, 15] {
+        for &v in &B14 {
+            h = mix(h, code_bytes(&RawShortMessage::pitch_bend_change(ch(c), u14(v))));
+            h = mix(h, code_bytes(&StructuredShortMessage::pitch_bend_change(ch(c), u14(v))));
+            h = mix(h, code_bytes(&RawShortMessage::song_position_pointer(u14(v))));
+            h = mix(h, code_bytes(&StructuredShortMessage::song_position_pointer(u14(v))));
+            n += 4;
+        }
+        for &(d1, d2) in &grid {
+            let k = KeyNumber::try_from(d1).unwrap();
+            h = mix(h, code_bytes(&RawShortMessage::note_on(ch(c), k, u7(d2))));
+            h = mix(h, code_bytes(&StructuredShortMessage::note_off(ch(c), k, u7(d2))));
+            h = mix(h, code_bytes(&RawShortMessage::polyphonic_key_pressure(ch(c), k, u7(d2))));
+            h = mix(h, code_bytes(&StructuredShortMessage::control_change(ch(c), cn(d1), u7(d2))));
+            h = mix(h, code_bytes(&RawShortMessage::program_change(ch(c), u7(d1))));
+            h = mix(h, code_bytes(&StructuredShortMessage::channel_pressure(ch(c), u7(d2))));
+            h = mix(h, code_bytes(&RawShortMessage::song_select(u7(d1))));
+            n += 7;
+        }
+    }
+    for f in 0..128u8 {
+        let q = TimeCodeQuarterFrame::from(u7(f));
+        h = mix(h, U7::from(q).get() as u64);
+        h = mix(h, code_bytes(&RawShortMessage::time_code_quarter_frame(q)));
+        h = mix(h, code_bytes(&StructuredShortMessage::time_code_quarter_frame(q)));
+        n += 3;
+    }
+    (h, n)
+}
+
 /// The transcript belonging to a check, if it has one.
 pub fn transcript(id: &str) -> Option<(u64, u64)> {
     match id {
+        "C01" | "C02" | "C03" | "C06" => Some(t_msgs()),
         "C07" => Some(t_c07()),
         "C08" => Some(t_c08(3)),
         "C09" => Some(t_c09()),
